@@ -1,6 +1,7 @@
 package main
 
 import (
+	"go/token"
 	"fmt"
 	"strings"
 
@@ -14,6 +15,8 @@ func runC14(c *Ctx, r *Report) {
 	r.Rule("C14.R5", "reader capacity: the line reader of AutoLoad imposes no limit on line length (a bufio.Scanner has Buffer called before every Scan with a constant maximum of at least 2^31-1) and consults Scanner.Err() on every path from the scan loop to a return")
 	r.Rule("C14.R4", "constants and built-in identifiers are not saved: every write of SaveGlobals is confined to the false edge of isConstantAndExtraIdentifier(key)")
 
+	r.Rule("C14.R8", "a literal's value is what its text says: in package parser every store to IntegerLiteral.Val writes the first result of strconv.ParseInt and every store to FloatLiteral.Val the first result of strconv.ParseFloat (no converted unsigned / float parse)")
+	c.checkLiteralValueSources(r, "C14.R8")
 	r.Rule("C14.R7", "auto-save sees every change: every write or delete on an Environment's store map (other than installing a Reference) is accompanied, on every path through it, by an increment of numSet of the same environment under its depth==0 test")
 	c.checkChangeCounter(r, "C14.R7")
 
@@ -425,4 +428,79 @@ func init() {
 		assume:  []string{"function bodies saved in compact form re-parse correctly only as far as C02's compact-separator known finding allows", "auto-load evaluates the file one line at a time (bufio.Scanner)"},
 		run:     runC14,
 	})
+}
+
+// checkLiteralValueSources: rule C14.R8, a literal's value is what its text says.
+//
+// The state file is text: an integer literal node must hold the number its digits denote and a float literal
+// the float they denote (Float.Inspect writes a large float as a bare digit string and relies on the integer
+// parse failing on it, known finding D25). In package parser every store to IntegerLiteral.Val writes the
+// first result of strconv.ParseInt(.., 64) on the ok path - never a converted unsigned or float parse, which
+// wraps around (10000000000000000000, the saved form of 1e19, came back as -8446744073709551616) - and every
+// store to FloatLiteral.Val the first result of strconv.ParseFloat.
+func (c *Ctx) checkLiteralValueSources(r *Report, rule string) {
+	type want struct {
+		node, parse string
+	}
+	n := 0
+	for _, w := range []want{{"IntegerLiteral", "strconv.ParseInt"}, {"FloatLiteral", "strconv.ParseFloat"}} {
+		nodeT := c.TypeNamed("ast", w.node)
+		for _, fn := range c.ModuleSSAFuncs() {
+			if fn.Pkg == nil || shortPkg(fn.Pkg.Pkg) != "parser" {
+				continue
+			}
+			k := 0
+			eachInstr(fn, func(in ssa.Instruction) {
+				st, ok := in.(*ssa.Store)
+				if !ok || !isFieldAddrOf(st.Addr, nodeT, "Val") {
+					return
+				}
+				n++
+				k++
+				desc := w.node + ".Val is the parse of the token text"
+				if k > 1 {
+					desc += " #" + itoa(k)
+				}
+				var direct func(v ssa.Value, depth int) bool
+				direct = func(v ssa.Value, depth int) bool {
+					if depth > 4 {
+						return false
+					}
+					switch x := v.(type) {
+					case *ssa.Extract:
+						call, ok := x.Tuple.(*ssa.Call)
+						return ok && x.Index == 0 && stdName(call) == w.parse
+					case *ssa.Phi:
+						for _, e := range x.Edges {
+							if !direct(e, depth+1) {
+								return false
+							}
+						}
+						return true
+					case *ssa.UnOp:
+						if al, ok := x.X.(*ssa.Alloc); ok && x.Op == token.MUL {
+							all := true
+							cnt := 0
+							for _, ref := range *al.Referrers() {
+								if s2, ok := ref.(*ssa.Store); ok && s2.Addr == ssa.Value(al) {
+									cnt++
+									if !direct(s2.Val, depth+1) {
+										all = false
+									}
+								}
+							}
+							return cnt > 0 && all
+						}
+					}
+					return false
+				}
+				r.Check(direct(st.Val, 0), rule, ssaFuncName(fn), desc, c.Pos(st.Pos()),
+					"the value stored into "+w.node+".Val ("+st.Val.String()+") is not the first result of "+w.parse+": a converted unsigned or float parse wraps around or rounds, so a saved value reloads as another one (10000000000000000000, the saved form of the float 1e19, as a negative integer)")
+			})
+		}
+	}
+	if n < 2 {
+		r.Undecided("%s: only %d stores to IntegerLiteral.Val / FloatLiteral.Val found in package parser", rule, n)
+	}
+	r.Floor(rule, 2)
 }
